@@ -103,22 +103,65 @@ def analyse(ck, prog=None):
                     if (rd and isinstance(off, tuple) and off[0] == "bin" and off[1] == "Add"
                             and ((P.const_of(off[2]) == OFF["BLOCK_HASH_OFFSET"] and off[3] == J) or (P.const_of(off[3]) == OFF["BLOCK_HASH_OFFSET"] and off[2] == J))):
                         D, d_eff, d_block, d_idx = e.args[0], e, bt, rd[0]
+    def flag_of(val, e=None):
+        """inner index i when `val` is bytes_digest_eq(<the 4 BLOCK_HASH limbs of inner i>, [zero; 4]) — the dummy flag by definition,
+        wherever it is stored (a pushed vector, a collected map whose indexing folds to the call, an unzip ..)"""
+        val = P.norm(val)
+        nm_ = P.call_name(val)
+        if not (nm_ and nm_.endswith("gadgets::bytes_digest_eq")):
+            return None
+        a_ = [P.norm(x) for x in val[4][1:]]
+        zs_ = [x for x in a_ if isinstance(x, tuple) and x[0] == "array" and len(x[1]) == 4 and all(P.const_of(y) == 0 for y in x[1])]
+        blk_ = [x for x in a_ if x not in zs_]
+        if not zs_ or len(blk_) != 1 or not (isinstance(blk_[0], tuple) and blk_[0][0] == "from_fn"):
+            return None
+        el_ = C(fr.index(blk_[0], J), e)
+        rd_ = read(el_)
+        off_ = P.norm(rd_[1]) if rd_ else None
+        if (rd_ and isinstance(off_, tuple) and off_[0] == "bin" and off_[1] == "Add"
+                and ((P.const_of(off_[2]) == OFF["BLOCK_HASH_OFFSET"] and off_[3] == J) or (P.const_of(off_[3]) == OFF["BLOCK_HASH_OFFSET"] and off_[2] == J))):
+            return rd_[0]
+        return None
+
+    def block_inner(t, e=None):
+        """inner index i when t is the array of the four BLOCK_HASH limbs of inner i (from_fn over pis_i[BLOCK_HASH_OFFSET + j])"""
+        t = P.norm(t)
+        if not (isinstance(t, tuple) and t and t[0] == "from_fn"):
+            return None
+        rd_ = read(C(fr.index(t, J), e))
+        off_ = P.norm(rd_[1]) if rd_ else None
+        if (rd_ and isinstance(off_, tuple) and off_[0] == "bin" and off_[1] == "Add"
+                and ((P.const_of(off_[2]) == OFF["BLOCK_HASH_OFFSET"] and off_[3] == J) or (P.const_of(off_[3]) == OFF["BLOCK_HASH_OFFSET"] and off_[2] == J))):
+            return rd_[0]
+        return None
+
+    inline_flags = False
     if D is None:
+        # the flags are not pushed into a vector one by one: look for the gadget call itself (a `.map(..).collect()` of flags indexes
+        # straight to the call)
+        ge = [e for e in effs if e.name.endswith("gadgets::bytes_digest_eq") and e.result is not None and flag_of(e.result, e) is not None]
+        if len(ge) == 1:
+            inline_flags = True
+            d_eff, d_idx = ge[0], flag_of(ge[0].result, ge[0])
+    if D is None and not inline_flags:
         ob.add({"C12", "C13"}, False, "TERM", "pub/is-dummy-flag", "no per-inner flag is_dummy_i = bytes_digest_eq(pis_i[BLOCK_HASH_OFFSET..+4], [0;4]) found", loc0)
         return ob, None
     d_nest = nest(d_eff)
-    ok = len(T.contents(effs, D)) == 1 and d_nest.depth() == 1 and d_nest.var(0) == d_idx and over_inners(d_idx) and not circ.uncond_problems(d_eff)
+    ok = (inline_flags or len(T.contents(effs, D)) == 1) and d_nest.depth() == 1 and d_nest.var(0) == d_idx and over_inners(d_idx) and not circ.uncond_problems(d_eff)
     ob.add({"C12", "C13"}, ok, "TERM", "pub/is-dummy-flag", "is_dummy_i = bytes_digest_eq(pis_i[%d..%d], [zero;4]), one flag per inner proof in proof order for the first n_inner proofs" % (OFF["BLOCK_HASH_OFFSET"], OFF["BLOCK_HASH_OFFSET"] + 4), d_eff.loc,
            [T.show(l)[:160] for l in d_nest.loops])
-    for e in effs:
+    for e in ([] if inline_flags else effs):
         if e.raw.get("name") == "push" and len(e.args) == 2 and P.norm(e.args[1]) == d_block and e.args[0] != D and circ.loops_of(e) == d_nest.loops:
             B = e.args[0]
-    ob.add({"C12", "C13"}, B is not None and len(T.contents(effs, B)) == 1, "TERM", "pub/block-hashes", "block_hashes[i] holds the same four BLOCK_HASH limbs", d_eff.loc)
+    ob.add({"C12", "C13"}, inline_flags or (B is not None and len(T.contents(effs, B)) == 1), "TERM", "pub/block-hashes",
+           "block_hashes[i] holds the same four BLOCK_HASH limbs" + (" (read straight from the inner public inputs wherever used)" if inline_flags else ""), d_eff.loc)
 
     def Dat(c):
         c = P.norm(c)
-        if isinstance(c, tuple) and c and c[0] == "idx" and c[1] == D:
+        if D is not None and isinstance(c, tuple) and c and c[0] == "idx" and c[1] == D:
             return c[2]
+        if inline_flags:
+            return flag_of(c)
         return None
 
     def notD(c):
@@ -186,7 +229,11 @@ def analyse(ck, prog=None):
             j = proj[0][1]
             i = check_take(b["take"], "block-hash", e3)
             kp = P.norm(b["keep"])
-            good = (i is not None and lc.is_var(j, 0, 4) and P.norm(b["val"]) == ("idx", ("idx", B, i), j)
+            bval = P.norm(b["val"])
+            rdv = read(bval)
+            from_b = bval == ("idx", ("idx", B, i), j) if B is not None else False
+            from_pis = rdv is not None and rdv[0] == i and P.norm(rdv[1]) in (("bin", "Add", ("c", OFF["BLOCK_HASH_OFFSET"], None), j), ("bin", "Add", j, ("c", OFF["BLOCK_HASH_OFFSET"], None)))
+            good = (i is not None and lc.is_var(j, 0, 4) and (from_b or from_pis)
                     and isinstance(kp, tuple) and kp[0] == "idx" and kp[2] == j)
             # the write happens for every (inner, limb): its only control context is the enclosing loops
             good = good and all(g[0] == "loop" for c in T.upd_write_ctrl(ev, t3) for g in c) and bool(T.upd_write_ctrl(ev, t3))
@@ -269,7 +316,9 @@ def analyse(ck, prog=None):
                 nmo = P.call_name(other)
                 if nmo and nmo.endswith("gadgets::bytes_digest_eq"):
                     a = [P.norm(z) for z in other[4][1:]]
-                    if ("idx", B, i) in a and block_ref in a:
+                    if B is not None and ("idx", B, i) in a and block_ref in a:
+                        cls = "block"
+                    elif inline_flags and block_ref in a and any(block_inner(z, e) == i for z in a if z != block_ref):
                         cls = "block"
         if cls is None:
             ob.add({"C13", "C10"}, False, "INV", "pub/constraint/unexpected@%s" % e.name, "a constraint outside the three metadata classes (slot contents, nullifiers and block numbers must not be cross-checked)", e.loc,
